@@ -757,7 +757,6 @@ func globalIsInitOnly(P *Prog, g *ssa.Global) bool {
 	return ok
 }
 
-
 // ruleStreamClose: the stream handler's side of the close discipline (C02):
 // exactly one close of its output parameter, nothing sent or closed afterwards.
 func ruleStreamClose(c *Ctx, pl *pipeline, rule string) {
